@@ -4,6 +4,7 @@ Driver/Dist.lean — line-protocol handlers for cluster `dist` (C10, C11, C12).
 import PkgsrcVerif.Driver.Proto
 import PkgsrcVerif.Model.Distinfo
 import PkgsrcVerif.Spec.Distinfo
+import PkgsrcVerif.Spec.DigestRef
 open Proto M
 
 namespace DriverDist
@@ -245,6 +246,14 @@ def oracleC12 (op : String) (args : List Bytes) (impl : String) : String × Stri
       let g := S.find groups full
       let isPatch := S.entryType full == .patchfile
       let digestOf (dg : Digest) (pm : Bool) : Bytes := ((if pm then hq else hp)[Digest.all.idxOf dg]?).getD []
+      -- the digests themselves are not taken on trust from the implementation: for every
+      -- algorithm the found entry records, the standard digest of the (patch-filtered) content
+      -- is recomputed with the Lean reference implementation
+      let refBad : Bool := match g with
+        | none => false
+        | some (g : S.Group) => g.sums.any fun (c : Digest × Bytes) =>
+            digestOf c.1 (g.kind == EntryType.patchfile) != S.fileDigest c.1 (g.kind == EntryType.patchfile) content
+      if refBad then ("fail:digest-of-the-file-is-not-the-standard-digest-of-its-content", "nt") else
       let expSize := match g with
         | none => "err:notfound"
         | some g => match g.size with
@@ -288,6 +297,9 @@ def oracleC12 (op : String) (args : List Bytes) (impl : String) : String × Stri
           | some c =>
             let act := digestOf dg (g.kind == .patchfile)
             if c.2 == act then "ok" else s!"err:checksum:{hexEncode c.2}:{hexEncode act}"
+        let refBad : Bool := g.sums.any fun (c : Digest × Bytes) =>
+          digestOf c.1 (g.kind == EntryType.patchfile) != S.fileDigest c.1 (g.kind == EntryType.patchfile) content
+        if refBad then ("fail:digest-of-the-file-is-not-the-standard-digest-of-its-content", "nt") else
         let parts := impl.splitOn "|"
         let get (k : String) : String := ((parts.find? (·.startsWith (k ++ "="))).map (·.drop (k.length + 1)) |>.map toString).getD "?"
         let renamed := (S.entryType fname == .patchfile) != (g.kind == .patchfile) && !g.sums.isEmpty
